@@ -7,6 +7,7 @@ import (
 	"go/token"
 	"go/types"
 	"math"
+	"path/filepath"
 	"regexp"
 	"sort"
 	"strconv"
@@ -197,6 +198,10 @@ func checkC25(r *core.Run, p *core.Program) {
 	r.Rule("C25.nan-kind", "float array elements reach the text writer as a float64 built from the element's bits by a bit-exact constructor (common.Float64FromFloat32Bits / Float64FromFloat16Bits / math.Float64frombits); no writer on the path converts a float32 to float64 with a Go conversion before classifying the NaN kind (the hardware conversion turns a signalling NaN into a quiet one).")
 	r.Rule("C25.hex-noprefix", "the no-prefix hexadecimal float writer shortens its output only by a suffix it has tested for exactly (a zero exponent, p+00) and by exactly that suffix's length.")
 	r.Rule("C25.chain", "for every typed-array header token: lexer mode, parser alternative, listener method, numeric base handed to strconv and element bit size agree (so what C25.render establishes for a mode is what the decoder does).")
+	r.Rule("C25.exact-int-of-float", "in the CTE and CBE encoders a floating-point value is converted to an integer type only behind an exact round-trip test: every use of the converted value lies on a path whose conditions include `float(converted) == original` (a test such as value == math.Trunc(value) admits values beyond the integer range, which the conversion then wraps).")
+	checkC25ExactIntOfFloat(r, p)
+	r.Rule("C25.cutset", "strings/bytes Trim, TrimLeft and TrimRight are given a SET of characters: a constant cutset that repeats a character (such as \"p+00\") shows that a suffix or prefix was meant, and strips more than that (any run of those characters); such calls do not occur in the encoders and the parser.")
+	checkC25Cutset(r, p)
 	r.Rule("C25.hex-exponent", "where the text parser decides, for base 16, whether a float element already carries an exponent, it searches for 'p' / 'P' only: a character that is itself a hexadecimal digit (e, E, …) is never taken as the exponent marker of a hexadecimal float.")
 	r.NotDecide("exactness of strconv/fmt float text for arbitrary values; NaN payloads")
 	checkC25HexExponent(r, p)
@@ -883,4 +888,154 @@ func checkC25HexExponent(r *core.Run, p *core.Program) {
 		})
 	}
 	r.Floor("C25.hex-exponent", "base-16 exponent searches", n, 1)
+}
+
+func checkC25ExactIntOfFloat(r *core.Run, p *core.Program) {
+	n := 0
+	for _, rel := range []string{"cte", "cbe"} {
+		pkg := p.Pkg(rel)
+		info := pkg.TypesInfo
+		a := newAnalysis(p)
+		for _, f := range funcsOf(pkg) {
+			if rn := recvNamed(f.Obj); rn != nil && (rn.Obj().Name() == "cteListener" || rn.Obj().Name() == "Reader" || rn.Obj().Name() == "Decoder") {
+				continue // decoding side: judged by C24 / C01
+			}
+			if fname := filepath.Base(p.Pos(f.Decl.Pos())); strings.Contains(fname, "parser") || strings.Contains(fname, "decoder") {
+				continue // helpers of the decoding side
+			}
+			ast.Inspect(f.Decl.Body, func(nd ast.Node) bool {
+				call, ok := nd.(*ast.CallExpr)
+				if !ok || len(call.Args) != 1 {
+					return true
+				}
+				tv, ok := info.Types[call.Fun]
+				if !ok || !tv.IsType() {
+					return true
+				}
+				tb, ok := tv.Type.Underlying().(*types.Basic)
+				if !ok || tb.Info()&types.IsInteger == 0 {
+					return true
+				}
+				ab, ok := info.TypeOf(call.Args[0]).Underlying().(*types.Basic)
+				if !ok || ab.Info()&types.IsFloat == 0 {
+					return true
+				}
+				if cv := constVal(info, call.Args[0]); cv != nil {
+					return true // constant conversion: checked by the compiler
+				}
+				n++
+				orig := exprStr(stripParens(call.Args[0]))
+				// the variable that receives the converted value (or the conversion itself when used in place)
+				var holder types.Object
+				ast.Inspect(f.Decl.Body, func(k ast.Node) bool {
+					if as, ok := k.(*ast.AssignStmt); ok {
+						for i, rhs := range as.Rhs {
+							if stripParens(rhs) == ast.Expr(call) && i < len(as.Lhs) {
+								holder = objOf(info, as.Lhs[i])
+							}
+						}
+					}
+					return true
+				})
+				isRoundTrip := func(e ast.Expr) bool {
+					be, ok := stripParens(e).(*ast.BinaryExpr)
+					if !ok || be.Op != token.EQL {
+						return false
+					}
+					for _, pair := range [][2]ast.Expr{{be.X, be.Y}, {be.Y, be.X}} {
+						back, ok := stripParens(pair[0]).(*ast.CallExpr)
+						if !ok || len(back.Args) != 1 {
+							continue
+						}
+						btv, ok := info.Types[back.Fun]
+						if !ok || !btv.IsType() {
+							continue
+						}
+						if bb, ok := btv.Type.Underlying().(*types.Basic); !ok || bb.Info()&types.IsFloat == 0 {
+							continue
+						}
+						inner := stripParens(back.Args[0])
+						sameVal := (holder != nil && objOf(info, inner) == holder) || exprStr(inner) == exprStr(call)
+						if sameVal && exprStr(stripParens(pair[1])) == orig {
+							return true
+						}
+					}
+					return false
+				}
+				bad := token.NoPos
+				check := func(use ast.Node) {
+					conds, pols := pathConds(a, info, f, use)
+					// uses inside the guard condition itself are the test
+					if impliesAtomValue(info, f, conds, pols, isRoundTrip, true) {
+						return
+					}
+					bad = use.Pos()
+				}
+				if holder == nil {
+					// used in place: the conversion expression itself must be guarded (unless it IS the guard)
+					inGuard := false
+					ast.Inspect(f.Decl.Body, func(k ast.Node) bool {
+						if be, ok := k.(*ast.BinaryExpr); ok && isRoundTrip(be) && be.Pos() <= call.Pos() && call.End() <= be.End() {
+							inGuard = true
+						}
+						return true
+					})
+					if !inGuard {
+						check(call)
+					}
+				} else {
+					ast.Inspect(f.Decl.Body, func(k ast.Node) bool {
+						if be, ok := k.(*ast.BinaryExpr); ok && isRoundTrip(be) {
+							return false // the guard itself
+						}
+						if id, ok := k.(*ast.Ident); ok && info.Uses[id] == holder {
+							check(id)
+						}
+						return true
+					})
+				}
+				r.Check("C25.exact-int-of-float", fmt.Sprintf("%s|%s", f.Name(), exprStr(call)), posOr(bad, call.Pos()), !bad.IsValid(),
+					"the integer obtained with `"+exprStr(call)+"` is used on a path that is not guarded by the exact round-trip test `float("+exprStr(call)+") == "+orig+"`: a value outside the integer range (or with a fraction) is written as a wrapped or truncated integer")
+				return true
+			})
+		}
+	}
+	r.Floor("C25.exact-int-of-float", "float-to-integer conversions in the encoders", n, 1)
+}
+
+func checkC25Cutset(r *core.Run, p *core.Program) {
+	n := 0
+	for _, rel := range []string{"cte", "cbe", "rules", "builder", "iterator", "internal/common", "conversions"} {
+		pkg := p.Pkg(rel)
+		info := pkg.TypesInfo
+		for _, f := range funcsOf(pkg) {
+			inspectCalls(info, f.Decl.Body, func(call *ast.CallExpr, c *types.Func) {
+				if c == nil || c.Pkg() == nil || (c.Pkg().Path() != "strings" && c.Pkg().Path() != "bytes") || len(call.Args) != 2 {
+					return
+				}
+				switch c.Name() {
+				case "Trim", "TrimLeft", "TrimRight":
+				default:
+					return
+				}
+				n++
+				cv := constVal(info, call.Args[1])
+				if cv == nil || cv.Kind() != constant.String {
+					return
+				}
+				seen := map[rune]bool{}
+				rep := false
+				for _, ch := range constant.StringVal(cv) {
+					if seen[ch] {
+						rep = true
+					}
+					seen[ch] = true
+				}
+				r.Check("C25.cutset", fmt.Sprintf("%s|%s(%s)", f.Name(), c.Name(), strconv.Quote(constant.StringVal(cv))), call.Pos(), !rep,
+					fmt.Sprintf("%s.%s is given the cutset %q, which repeats a character: it removes any run of these characters, not that suffix/prefix - digits that belong to the value are cut off", c.Pkg().Name(), c.Name(), constant.StringVal(cv)))
+			})
+		}
+	}
+	r.Pass("C25.cutset", "module|no cutset that repeats a character", token.NoPos, "")
+	r.Count("C25.cutset Trim/TrimLeft/TrimRight calls", n)
 }
